@@ -86,6 +86,10 @@ EXPLANATION += (
     ' Round 10: the chunk size handed to the row readers does not depend on the number of gene columns (R-PROV/chunking-independent-of-genes).'
 )
 
+EXPLANATION += (
+    ' Round 11: the declared normalization reaches the election exactly as configured (R-FWD/config-as-requested); row totals are accumulated in a widened type (R-CAP/row-total-accumulator).'
+)
+
 RULE_TEXT = (
     "one obligation per dominance / typestate / provenance relation named "
     "above")
